@@ -121,6 +121,8 @@ def n_OrderedSet(eng, args, kw, n, st):
 
 def n_sorted(eng, args, kw, n, st):
     """sorted(terms, key=...): some permutation (the contract does not depend on the order)"""
+    if set(kw) - {"key", "reverse"}:
+        raise OutOfSubset(n, "sorted with an option other than key= / reverse=")
     s = args[0]
     if not (isinstance(s, V) and isinstance(s.ty, TSeq) and s.ty.elem == STERM):
         raise OutOfSubset(n, "sorted of something other than scoped terms")
